@@ -239,6 +239,16 @@ func genC12(r *Rng, e *Emitter, n int) {
 			}
 			e.tally("floats-near-config")
 		}
+		if !r.chance(3, 4) && true {
+			// the same figure at another scale (a power of two: exactly representable, every decision
+			// the same), down to the small end and up to the large end of the magnitude window
+			k := []int{-300, -270, -200, -60, 60, 200, 290}[r.Intn(7)]
+			sc := math.Ldexp(1, k)
+			for _, p := range []geom.Coord{a, b, c, d} {
+				p[0], p[1] = p[0]*sc, p[1]*sc
+			}
+			e.tally("scaled-by-power-of-two")
+		}
 		if r.chance(1, 2) { // extra ordinates are ignored
 			for _, p := range []*geom.Coord{&a, &b, &c, &d} {
 				*p = append(*p, r.anyBits())
